@@ -1,6 +1,6 @@
 """C04 — dtype inference and promotion form an order-independent lattice."""
 import itertools, warnings
-from values import value_of, dtype_wire, tag_code, kind_code, POOL
+from values import value_of, dtype_wire, tag_code, kind_code, POOL, storage
 from extract_consts import kind_codes
 
 PID = "C04"
@@ -177,7 +177,7 @@ def _result(spec):
         return {"skip": f"operation raised {type(e).__name__}"}
     if not isinstance(r, Vector) or r.ndims() != 1 and len(r):
         return {"skip": "not a vector"}
-    vals = list(r._underlying)
+    vals = list(storage(r))
     if any(isinstance(x, tuple) for x in vals):
         return {"skip": "mixed-type fallback"}
     if op in ("fillna",) :
